@@ -1,7 +1,148 @@
 package main
 
-// controls: in-memory overlay mutants of /repo files (positive controls). See controls_impl.go.
+import (
+	"encoding/json"
+	"fmt"
+	"os"
+	"os/exec"
+	"path/filepath"
+	"strings"
+)
 
-func runControls(repo, prop string, r *Report) {}
+// Control is a positive (or negative) control: an in-memory mutant of a /repo file,
+// supplied to the loader through packages.Config.Overlay. Nothing is written under /repo.
+// The mutant is located by a source snippet inside the named file; if the snippet is no
+// longer there the control is "not applicable" (never a property failure).
+type Control struct {
+	Prop     string
+	Name     string
+	File     string // repo-relative
+	Find     string
+	Replace  string
+	Rule     string // rule expected to fire
+	Contains string // substring of the construct expected in the finding
+	Negative bool   // the mutant preserves the property: the rule must stay silent
+}
 
-func runControlChild(repo, prop, name string) {}
+var controls []Control
+
+func addControl(c Control) { controls = append(controls, c) }
+
+// runControlChild: load with the overlay, evaluate the property's rules, print findings.
+func runControlChild(repo, prop, name string) {
+	var ctl *Control
+	for i := range controls {
+		if controls[i].Prop == prop && controls[i].Name == name {
+			ctl = &controls[i]
+		}
+	}
+	if ctl == nil {
+		fmt.Println(`{"status":"unknown-control"}`)
+		return
+	}
+	path := filepath.Join(repo, ctl.File)
+	b, err := os.ReadFile(path)
+	if err != nil || strings.Count(string(b), ctl.Find) != 1 {
+		fmt.Println(`{"status":"not-applicable"}`)
+		return
+	}
+	mut := strings.Replace(string(b), ctl.Find, ctl.Replace, 1)
+	p, err := Load(repo, map[string][]byte{path: []byte(mut)})
+	if err != nil {
+		out, _ := json.Marshal(map[string]interface{}{"status": "load-error", "error": err.Error()})
+		fmt.Println(string(out))
+		return
+	}
+	r := NewReport(prop, "thorough", 0)
+	func() {
+		defer func() {
+			if e := recover(); e != nil {
+				r.Fail("PANIC", "rule evaluation", fmt.Sprint(e), "", nil)
+			}
+		}()
+		ruleFuncs[prop](p, r)
+	}()
+	out, _ := json.Marshal(map[string]interface{}{"status": "ok", "findings": r.Findings})
+	fmt.Println(string(out))
+}
+
+// runControls runs every control of the property in its own subprocess, sequentially.
+func runControls(repo, prop string, r *Report) {
+	self, err := os.Executable()
+	if err != nil {
+		r.Note("controls skipped: %v", err)
+		return
+	}
+	base := map[string]bool{}
+	for _, f := range r.Findings {
+		base[f.Rule+"|"+f.Construct] = true
+	}
+	for _, c := range controls {
+		if c.Prop != prop {
+			continue
+		}
+		cmd := exec.Command(self, "-repo", repo, "-verif", verifDir, "-prop", prop, "-control", c.Name)
+		cmd.Env = os.Environ()
+		outb, err := cmd.Output()
+		res := ControlResult{Name: c.Name, Expected: c.Rule + " ~ " + c.Contains}
+		if c.Negative {
+			res.Expected = "silent (behaviour-preserving or stricter variant)"
+		}
+		var doc struct {
+			Status   string    `json:"status"`
+			Error    string    `json:"error"`
+			Findings []Finding `json:"findings"`
+		}
+		// the child prints exactly one JSON line last
+		lines := strings.Split(strings.TrimSpace(string(outb)), "\n")
+		if err != nil || len(lines) == 0 || json.Unmarshal([]byte(lines[len(lines)-1]), &doc) != nil {
+			res.Status = "MISSED"
+			res.Detail = fmt.Sprintf("control process failed: %v", err)
+			r.Controls = append(r.Controls, res)
+			continue
+		}
+		switch doc.Status {
+		case "not-applicable":
+			res.Status = "not-applicable"
+			res.Detail = "the anchoring snippet is no longer present in " + c.File
+		case "load-error":
+			res.Status = "not-applicable"
+			res.Detail = "mutant does not type-check: " + doc.Error
+		case "ok":
+			var fresh []Finding
+			for _, f := range doc.Findings {
+				if !base[f.Rule+"|"+f.Construct] {
+					fresh = append(fresh, f)
+				}
+			}
+			hit := false
+			for _, f := range fresh {
+				if f.Rule == c.Rule && strings.Contains(f.Construct, c.Contains) {
+					hit = true
+					res.Detail = f.Pos + ": " + f.Construct
+				}
+			}
+			if c.Negative {
+				if len(fresh) == 0 {
+					res.Status = "silent-ok"
+				} else {
+					res.Status = "MISSED"
+					res.Detail = "negative control raised: " + fresh[0].Rule + " " + fresh[0].Construct
+				}
+			} else if hit {
+				res.Status = "detected"
+			} else {
+				res.Status = "MISSED"
+				if len(fresh) > 0 {
+					res.Detail = "other findings only: " + fresh[0].Rule + " " + fresh[0].Construct
+				} else {
+					res.Detail = "no new finding"
+				}
+			}
+		default:
+			res.Status = "MISSED"
+			res.Detail = "unexpected status " + doc.Status
+		}
+		r.Controls = append(r.Controls, res)
+	}
+}
